@@ -39,5 +39,9 @@ def run(prop, tier, seed, replay):
         common.ensure_impl_python()
         import cmp_check
         return cmp_check.run(prop, tier, seed, replay)
+    if prop in ('C03', 'C05'):
+        common.ensure_impl_python()
+        import edif_check
+        return edif_check.run(prop, tier, seed, replay)
     print('no check registered for', prop)
     return 2
